@@ -10,6 +10,7 @@ import re
 
 from ..index import AnalysisError, attr_chain, norm, own_nodes
 from ..consteval import ClassEval
+from .common import borrowed
 
 EXPLANATION = (
     "Static table check. The CipherSuite class body of tlslite/constants.py is evaluated from its "
@@ -928,4 +929,6 @@ RULES = [
     ("C20.KX", "quick", rule_kx),
     ("C20.PRF", "quick", rule_prf),
     ("C20.POLICY", "quick", rule_policy),
+    ("C20.SRV-PICK", "quick", borrowed("c03", "rule_srv_pick", "C03.SRV-PICK", "C20.SRV-PICK")),
+    ("C20.VERSION-GATE", "quick", borrowed("c03", "rule_suite_version", "C03.SH-GATES", "C20.VERSION-GATE")),
 ]
